@@ -151,6 +151,22 @@ fn block_definition_from_bytes(a: &[String]) -> Result<bool> {
 	Ok(false)
 }
 
+fn vector_tile_dup_keys(_a: &[String]) -> Result<bool> {
+	// C11/C10: key/value tables are addressed by POSITION (MVT spec 4.4); a table with duplicate entries is valid
+	let feature: Vec<u8> = vec![0x12, 0x02, 0x02, 0x01, 0x18, 0x01, 0x22, 0x03, 0x09, 0x02, 0x02];
+	let mut layer: Vec<u8> = vec![0x0a, 0x01, b'l', 0x12, feature.len() as u8];
+	layer.extend(&feature);
+	layer.extend([0x1a, 0x01, b'a', 0x1a, 0x01, b'a', 0x1a, 0x01, b'b']);            // keys: a, a, b
+	layer.extend([0x22, 0x03, 0x0a, 0x01, b'x', 0x22, 0x03, 0x0a, 0x01, b'y']);      // values: "x", "y"
+	let mut tile: Vec<u8> = vec![0x1a, layer.len() as u8];
+	tile.extend(&layer);
+	let vt = versatiles_geometry::vector_tile::VectorTile::from_blob(&Blob::from(tile))?;
+	let l = &vt.layers[0];
+	let props = l.decode_tag_ids(&l.features[0].tag_ids);
+	println!("feature tags [2,1] with keys [a,a,b], values [x,y] decode to {props:?}; expected {{b: y}}");
+	Ok(match props { Err(_) => true, Ok(p) => format!("{p:?}") != format!("{:?}", versatiles_geometry::GeoProperties::from(vec![("b", versatiles_geometry::GeoValue::from("y"))])) })
+}
+
 fn main() -> Result<()> {
 	let args: Vec<String> = std::env::args().skip(1).collect();
 	if args.is_empty() { eprintln!("usage: verif_replay <case> args…"); std::process::exit(2); }
@@ -162,6 +178,7 @@ fn main() -> Result<()> {
 			"cache_just_used_survives" => cache_just_used_survives(rest),
 			"pmtiles_dir_from_bytes" => pmtiles_dir_from_bytes(rest),
 			"block_definition_from_bytes" => block_definition_from_bytes(rest),
+			"vector_tile_dup_keys" => vector_tile_dup_keys(rest),
 			"svarint_roundtrip" => svarint_roundtrip(rest),
 			"pbf_length_prefix" => pbf_length_prefix(rest),
 			"vector_tile_from_bytes" => vector_tile_from_bytes(rest),
